@@ -15,6 +15,7 @@ pub mod c06;
 pub mod bracket;
 pub mod c07;
 pub mod c08;
+pub mod c09;
 pub mod c10;
 pub mod c11;
 pub mod c12;
@@ -23,6 +24,7 @@ pub mod c14;
 pub mod c15;
 pub mod c16;
 pub mod c17;
+pub mod c19;
 
 pub fn make(property: &str) -> Vec<Box<dyn Monitor>> {
     match property {
@@ -36,6 +38,8 @@ pub fn make(property: &str) -> Vec<Box<dyn Monitor>> {
         "C05" => vec![Box::new(c05::C05::default())],
         "C07" => vec![Box::new(c07::C07::default())],
         "C08" => vec![Box::new(c08::C08::default())],
+        "C09" => vec![Box::new(c09::C09::default())],
+        "C19" => vec![Box::new(c19::C19::default())],
         "C10" => vec![Box::new(c10::C10::default())],
         "C11" => vec![Box::new(c11::C11::default())],
         "C12" => vec![Box::new(c12::C12::default())],
